@@ -29,6 +29,16 @@ claim('C19', 'verus',
       'rewrites N1-N7 of DESIGN.md 3.2. Not decided: uniqueness of display names per instantiation; FNV collision freedom.',
       'DESIGN.md §4 C19')
 
+claim('C18', 'verus',
+      'contract-based deductive verification (Verus) of the real dora-bytecode writer/reader functions, extracted mechanically on every run',
+      'Clause decided: every bytecode function reads back as the instruction sequence it was written as, for all operand widths and jump distances. '
+      'All 70 public BytecodeWriter emit methods, the label/forward-jump machinery and the reader (varint/fixed primitives, read_arguments, the 70-arm read_instruction, '
+      'both opcode conversions) carry Verus contracts against one table-driven wire format; the round trip for one instruction, for sequences and for patched forward jumps are lemmas over those contracts, '
+      'with no bound on operand values, buffer sizes or sequence length. Failed obligations are reported with a concrete failing instruction sequence found on the real crate by the replay runner, or no-failing-input-found.',
+      'Trusted: Verus/Z3, vstd, rewrites N1-N8 (DESIGN.md 3.2), assumed items in evidence.trusted_base (emit_location frame, usize->u32 try_into, mem::replace, opaque const-pool entry constructors). '
+      'Not decided: bincode package round trip, corrupted-file refusal, build-via-package equality, Dora-side readers, jump tables.',
+      'DESIGN.md §4 C18')
+
 NA_REASONS = {
  'C01': 'quantifies over all programs and the behaviour of emitted machine code of two generators (one written in Dora); no function contract can state it',
  'C02': 'relational property between two compilers over all programs and run-time values; memory safety of generated code is not a property of a Rust function',
